@@ -227,13 +227,13 @@ func (s *c06state) distProbes() []*c06ev {
 				sts []c06st
 				ws  []int
 			}{
-				{[]c06st{{d, "A", one}, {d, "B", one}}, []int{0, 1, 2, 3}},     // a run of one (unwitnessed) sender
-				{[]c06st{{"A", "B", one}, {d, "A", one}}, []int{1, 3}},         // witnessed sender first
-				{[]c06st{{d, "A", one}, {"A", "B", one}}, []int{1, 3}},         // witnessed sender second
-				{[]c06st{{"A", d, one}, {d, "B", one}}, []int{1, 3}},           // credited, then debited
-				{[]c06st{{d, "A", zero}, {d, "B", one}}, []int{0, 3}},          // a skipped zero-valued state first
+				{[]c06st{{d, "A", one}, {d, "B", one}}, []int{0, 1, 2, 3}},           // a run of one (unwitnessed) sender
+				{[]c06st{{"A", "B", one}, {d, "A", one}}, []int{1, 3}},               // witnessed sender first
+				{[]c06st{{d, "A", one}, {"A", "B", one}}, []int{1, 3}},               // witnessed sender second
+				{[]c06st{{"A", d, one}, {d, "B", one}}, []int{1, 3}},                 // credited, then debited
+				{[]c06st{{d, "A", zero}, {d, "B", one}}, []int{0, 3}},                // a skipped zero-valued state first
 				{[]c06st{{"A", "B", one}, {"A", "C", one}, {d, "A", one}}, []int{1}}, // after a run of a witnessed sender
-				{[]c06st{{d, "A", bi}, {d, "B", one}}, []int{0}},               // everything, then one more
+				{[]c06st{{d, "A", bi}, {d, "B", one}}, []int{0}},                     // everything, then one more
 			}
 			for _, m := range multis {
 				for _, w := range m.ws {
